@@ -63,6 +63,8 @@ def run(cx, chk):
         accessors(cx, chk, cfg, F)
         countdown_source(cx, chk, cfg, F)
         recency_order(cx, chk, cfg, F)
+        clone_order(cx, chk, cfg, F)
+        composite_refresh(cx, chk, cfg, F)
 
 
 def impl_method(F, head, trait, method):
@@ -295,6 +297,27 @@ class _Remap:
 
     def floor(self, *a):
         self.chk.floor(*a)
+
+
+def clone_order(cx, chk, cfg, F):
+    """the iterators of a clone yield what the iterators of the original yield: RawLRU::clone rebuilds the list in the same order"""
+    from . import c16
+    from .lib.report import Relabel
+    fcl = [F.fns[i] for im in F.doc["impls"] if (im["trait"] or "").endswith("clone::Clone") and im["self_head"] == api.CACHES["RawLRU"] for i in im["items"] if i in F.fns and F.fns[i]["name"] == "clone"]
+    if len(fcl) != 1:
+        raise AnalysisError("C14.R6: RawLRU::clone not found in %s" % cfg)
+    c16.rawlru_clone(cx, Relabel(chk, {"C16.R2": "C14.R6"}, keep=lambda key: "|order" in key or "|no-list-walk" in key or key.endswith("clone")), cfg, F, fcl[0])
+
+
+def composite_refresh(cx, chk, cfg, F):
+    """the per-list iterators of 2Q / ARC are most-recent-first only if a hit on an entry of a list moves it to that list's head (or
+    to another list): the refresh / promote clauses of the routing rules C08.R1 and C09.R3, reported here for the lists the iterators walk"""
+    from . import c08, c09
+    from .lib.report import Relabel
+    keep = lambda key: "no-refresh" in key or "not-promoted" in key or key.endswith(("::put", "::get", "::get_mut"))     # noqa: E731
+    for mod, adt, rid in ((c08, "TwoQueueCache", "C08.R1"), (c09, "AdaptiveCache", "C09.R3")):
+        for name in ("put", "get", "get_mut"):
+            mod.route(cx, Relabel(chk, {rid: "C14.R6"}, keep=keep), cfg, F, composite.cache_method(F, api.CACHES[adt], name), name)
 
 
 def recency_order(cx, chk, cfg, F):
